@@ -175,6 +175,16 @@ impl P {
     }
 }
 
+/// The value a clone or view started on was replaced in the meantime: if it was *destroyed*
+/// on the way (a broadcast writer drops the old value before it overwrites the slot), the
+/// observer has been reading a dead value (C04 `observed_dead`, C05 `use_after_drop`).
+fn source_dropped_meanwhile(when: &'static str, id0: u64, serial0: u32) {
+    let drops = LEDGER.with(|l| l.borrow().entries.get(serial0 as usize).map(|e| e.drops).unwrap_or(0));
+    if drops != 0 {
+        violation("observed_dead", serial0, format!("{}: {} (serial {}) was dropped {} time(s) while it was being looked at", when, fmt_id(id0), serial0, drops));
+    }
+}
+
 impl Clone for P {
     fn clone(&self) -> P {
         let _g = rt::galloc::NoAttr::new();
@@ -204,6 +214,7 @@ impl Clone for P {
                         serial1
                     ),
                 );
+                source_dropped_meanwhile("clone end", id0, serial0);
             } else {
                 self.observe("clone end");
             }
@@ -302,6 +313,7 @@ pub fn view(p: &P) -> u64 {
                 serial0,
                 format!("view: value changed from {} (serial {}) to id={:#x} serial={} during the closure", fmt_id(id0), serial0, id1, serial1),
             );
+            source_dropped_meanwhile("view end", id0, serial0);
         } else {
             p.observe("view end");
         }
